@@ -1162,7 +1162,11 @@ def check_cascade_data(ctx, w, cas, arg, pops_arg, members, rng, cs_seed):
         ts0 = data.get_ts(lab, members[0])
         if ts0 is not None and len(ts0.t) >= 1:
             hole = float(ts0.t[len(ts0.t) // 2])
-            ts0.remove(hole)
+            if cs_seed % 2:
+                ts0.remove(hole)                      # one year missing
+            else:
+                for t_ in list(ts0.t):                # no entry at all in the leading population
+                    ts0.remove(t_)
             ctx.count("cascade.data.hole_in_leading_population")
     fw = w.P.framework
     stages = cas["stages"]
